@@ -29,6 +29,21 @@ CHECKS = {
    text="handshake_iff (success iff both sets empty or a common bit, for all four server settings and every client value), success_advertises, failure_mismatch_and_end, no_mechanism_refused_under_token_auth, serverCaps_bits (Props/C17.lean). Tie: the real Processor.Process is run on handshake packets for every server setting × client values (quick: all values with ≤ 2 bits + 2000 random; thorough: all 65536) and compared with the model and with the rule itself.",
    design="6/C17",
    note="Only the handshake step of the packet loop is exercised here; its composition with later steps is C01's."),
+ "C02": dict(
+   technique="Lean 4 theorems about the cookie decision procedure (Cookie.check/mint) + differential correspondence of the real CheckPAACookie/GeneratePAAToken against an independent dissector (std base64/json/hmac) and a fake IdP",
+   text="accept_sound (an accepted cookie is a 3-segment HS256 JWS under the configured key, issuer rdpgw, within exp/nbf/iat with 60 s leeway, access token honoured; session = token's host/address + IdP subject), refused_if, mint_expiry, mint_accept (accepted at every instant ≤ now+360 s), mint_expired_refused, revoked_refused, reject_status (0x800759F8 and end of tunnel) in Props/C02.lean. Tie: every generated cookie is dissected into Facts by an independent decoder and the real CheckPAACookie verdict (and the session it writes) is compared with Cookie.check; acceptance of anything the model refuses is a violation with that cookie as replay.",
+   design="6/C02",
+   note="Cryptography is assumed ideal (macOk is computed by std HMAC over the canonical re-encoding); JWS/JSON parsing is go-jose's: on exotic spellings the library may be stricter than the model (counted, safe side). The clock is the host's; boundary cases keep a 3 s margin, the exact boundary is the theorem's."),
+ "C03": dict(
+   technique="Lean 4 theorems (policy characterisation, replaceFirst lemmas, composition with the tunnel machine by induction over runs) + differential correspondence of the real CheckHost/CheckSession/DecodeUTF16 and of channel-create through the real packet loop with canary listeners",
+   text="policy_char, signed_allows_nothing, unlisted_only_in_any, empty_user_refused, replaceFirst_first / _no_occurrence, token_binds_host, dial_is_requested_and_allowed (any dial in any run is for exactly the rendered server:port of a channel-create packet and passed the installed policy), same_string, denied_no_dial, all_denied_no_dial, installed_token (Props/C03.lean). Tie: the real security.CheckHost / CheckSession composition main.go installs is compared with C03.installed on generated modes × lists × users × token hosts × near-miss hosts; DecodeUTF16 with Utf16.decode; channel-create requests run through the real Process with the real callbacks and loopback listeners (allowed entry, other user's entry, canary, closed port).",
+   design="6/C03",
+   note="Name resolution and the TCP dial are the OS's; only IP-literal and empty server names are generated for dial observation. main.go's wiring (CheckSession(CheckHost) iff token auth) is mirrored by the harness, the binary-tier check of that wiring is C05/C18's."),
+ "C04": dict(
+   technique="Lean 4 theorems about checkSession and the client-address rule + differential correspondence of the real EnrichContext → GeneratePAAToken → CheckPAACookie → CheckSession chain (fake IdP) and whole tunnels on both transports",
+   text="bound, mismatch_refused, disabled_ignored, refused_in_tunnel (0x800759DA, no dial), mint_records, clientAddr_xff / clientAddr_peer, same_rule_at_issue_and_use, default_on (regenerated defaults map) in Props/C04.lean. Tie: clientAddr vs the real EnrichContext on generated peers and X-Forwarded-For chains; tokens minted at address A and presented at address B through the real chain under both switch settings; tunnels over websocket and legacy presenting a token from the same / another address.",
+   design="6/C04",
+   note="TrimSpace is modelled for ASCII blanks plus U+0085/U+00A0; net.SplitHostPort for well-formed and a few malformed peers. Different spellings of one address are different addresses (refused: the safe side)."),
 }
 
 def entry(pid, c):
